@@ -28,6 +28,7 @@ PROPS["C01"] = {
         "pkg": "primitives/ed25519", "configs": ALL4,
         "tests": {
             "TestC01Verify": T(4000, 100000, env=_C01_ENV, shards={"quick": 8}),
+            "FuzzC01Verify": FUZZ(120, configs=["default"], env=_C01_ENV),
             "TestC01Panics": T(300, 5000, env=_C01_ENV),
             "TestC01SmallOrderMatrix0": LIST(env=_C01_ENV),
             "TestC01SmallOrderMatrix1": LIST(env=_C01_ENV),
